@@ -13,7 +13,7 @@ import lib
 
 PROPS = ["C07", "C10", "C02", "C11"]
 CDIR = os.path.join(lib.BUILD, "client")
-VERSIONS = ["4"]
+VERSIONS = ["4", "5"]
 
 ASSUMPTIONS = [
     "state-machine level: the caller honours the MqttState contract that EventLoop::select implements — no QoS>0 publish is handed over while `collision` is parked, "
@@ -35,7 +35,7 @@ class Mon:
     acks were accepted.  `viol` collects (property, text)."""
 
     __slots__ = ("ver", "max", "manual", "dead", "breach", "coll", "unacked", "released", "parked",
-                 "inc2", "inorder", "viol", "nontrivial")
+                 "inc2", "inorder", "viol", "nontrivial", "limit", "alias_max", "aliases", "prev_held")
 
     def __init__(self, ver, mx, manual):
         self.ver, self.max, self.manual = ver, mx, manual
@@ -49,6 +49,10 @@ class Mon:
         self.inorder = True      # only QoS1 publishes so far, every PUBACK hit the oldest
         self.viol = []
         self.nontrivial = set()
+        self.limit = mx          # v5: configured upper limit; self.max follows CONNACK receive-maximum
+        self.alias_max = 0       # v5: broker's topic-alias-maximum
+        self.aliases = set()     # v5: inbound aliases the broker has defined
+        self.prev_held = 0
 
     def copy(self):
         m = Mon.__new__(Mon)
@@ -60,6 +64,7 @@ class Mon:
         m.inorder = self.inorder
         m.viol = list(self.viol)
         m.nontrivial = set(self.nontrivial)
+        m.limit, m.alias_max, m.aliases, m.prev_held = self.limit, self.alias_max, set(self.aliases), self.prev_held
         return m
 
     def v(self, prop, text):
@@ -100,7 +105,7 @@ class Mon:
                 self.v("C10", "panic on incoming packet %s" % " ".join(t[1:]))
             elif t[0] == "CLEAN":
                 self.v("C02", "clean() panicked")
-            elif t[1] in ("PUBCOMP", "PINGRESP", "SUBACK", "UNSUBACK") or (t[1] == "PUBREL" and not 1 <= int(t[2]) <= self.max):
+            elif t[1] in ("PUBCOMP", "PINGRESP", "SUBACK", "UNSUBACK") or (t[1] == "PUBREL" and not 1 <= int(t[2]) <= self.limit):
                 pass  # requests the client API cannot produce
             else:
                 self.v("C07", "panic on user request %s" % " ".join(t[1:]))
@@ -122,8 +127,10 @@ class Mon:
         # the public inflight() counter is what the event loop's flow control reads
         if infl != self.held():
             self.v("C07", "%s: inflight() = %d but %d publishes/releases are unacknowledged on the wire" % (what, infl, self.held()))
-        if self.held() > self.max:
-            self.v("C07", "%s: %d unacknowledged > limit %d" % (what, self.held(), self.max))
+        # (v5: the tables hold `limit` ids; keeping the count under a lowered receive-maximum is the
+        #  event loop's guard `inflight >= max_outgoing_inflight`, not the state machine's)
+        if self.held() > self.limit:
+            self.v("C07", "%s: %d unacknowledged > limit %d" % (what, self.held(), self.limit))
         if coll != (1 if self.parked else 0):
             self.v("C07", "%s: collision flag %d but parked=%s" % (what, coll, self.parked))
         self.coll = coll
@@ -138,9 +145,17 @@ class Mon:
             self.v("C10", "%s produced Incoming notifications %s" % (what, iev))
         if k == "PUB":
             q, i, tp, pl = r[1], int(r[2]), r[3], r[4]
+            if len(r) > 5 and r[5] != "-":
+                pl = pl + ":a" + r[5]      # the alias travels with the content
+                if int(r[5]) > self.alias_max:
+                    if not (st == "ERR" and body == "InvalidAlias:%s:%d" % (r[5], self.alias_max)):
+                        self.v("C10", "%s: alias above the broker's maximum %d answered %s %s" % (what, self.alias_max, st, body))
+                    self.expect_events("C10", evs, [], what)
+                    self.nontrivial.add("v5-invalid-alias")
+                    return
             if q != "0" and self.coll:
                 self.breach = self.breach or "publish handed over while a collision is parked"
-            if q != "0" and i > self.max:
+            if q != "0" and i > self.limit:
                 if not (st == "ERR" and body == "Unsolicited:%d" % i):
                     self.v("C07", "%s: id above the limit accepted (%s %s)" % (what, st, body))
                 self.expect_events("C10", evs, [], what)
@@ -167,12 +182,15 @@ class Mon:
                     self.v("C11", "%s: preset id changed to %d" % (what, kid))
                 self.parked = (kid, q, tp, pl)
                 return
-            f = body.split(":")
+            f = body.split(":", 4)
             if f[0] != "PUB" or len(f) != 5 or f[1] != q or f[3] != tp or f[4] != pl:
                 self.v("C10", "%s: wrote %s" % (what, body))
                 return
             kid = int(f[2])
-            self.idok(kid, what)
+            if i == 0:
+                self.idok(kid, what)     # a fresh id obeys the current limit (v5: receive-maximum)
+            elif not 1 <= kid <= self.limit:
+                self.v("C07", "%s: packet id %d outside 1..%d on the wire" % (what, kid, self.limit))
             if i and kid != i:
                 self.v("C11", "%s: preset id changed to %d" % (what, kid))
             if kid in self.unacked or kid in self.released:
@@ -206,7 +224,7 @@ class Mon:
             return
         if k == "PUBREL":
             i = int(r[1])
-            if not 1 <= i <= self.max or i in self.unacked or i in self.released:
+            if not 1 <= i <= self.limit or i in self.unacked or i in self.released:
                 self.breach = self.breach or "PubRel request for an id that did not come from clean()"
                 return
             if not (st == "OK" and body == "PUBREL:%d" % i):
@@ -231,7 +249,10 @@ class Mon:
 
     def inc(self, r, st, body, evs, iev, oev, what):
         k = r[0]
-        canon = "I(" + ":".join(r) + ")"
+        rr = list(r)
+        if k == "PUB" and len(rr) > 5:
+            rr = rr[:5] + (["a" + rr[5]] if rr[5] != "-" else [])
+        canon = "I(" + ":".join(rr) + ")"
         if not evs or evs[0] != canon or len(iev) != 1:
             self.v("C10", "%s: notifications %s do not start with exactly one %s" % (what, evs, canon))
         if st == "ERR" and oev:
@@ -239,6 +260,16 @@ class Mon:
         if k == "PUB":
             q, i = r[1], int(r[2])
             want = "-"
+            if len(r) > 5 and r[5] != "-":
+                if r[3] != "0":
+                    self.aliases.add(r[5])
+                elif r[5] not in self.aliases:
+                    # unknown alias on an empty topic: protocol error, DISCONNECT 0x82 written, nothing else
+                    self.nontrivial.add("v5-protocol-error")
+                    if not (st == "OK" and body == "DISCONNECT:130"):
+                        self.v("C10", "%s: unknown topic alias answered %s %s (expected DISCONNECT:130 written)" % (what, st, body))
+                    self.expect_events("C10", oev, ["O(DISCONNECT)"], what)
+                    return
             if q == "1" and not self.manual:
                 want = "PUBACK:%d" % i
             if q == "2":
@@ -254,6 +285,9 @@ class Mon:
         if k in ("PUBACK", "PUBREC", "PUBCOMP", "PUBREL"):
             i = int(r[1])
             unsol = "Unsolicited:%d" % i
+            refused = len(r) > 2 and r[2] not in ("0", "16")
+            if refused:
+                self.nontrivial.add("v5-failure-reason")
             if k == "PUBREL":
                 if i in self.inc2:
                     self.inc2.discard(i)
@@ -275,6 +309,15 @@ class Mon:
                     return
                 del self.unacked[i]
                 self.resolve("PUBACK", i, body, oev, what)
+                return
+            if k == "PUBREC" and i in self.unacked and refused:
+                # v5: the broker refused the publish: the flow ends, the id is free, no PUBREL
+                self.inorder = False
+                if st != "OK":
+                    self.v("C10", "%s: solicited PUBREC answered ERR %s" % (what, body))
+                    return
+                del self.unacked[i]
+                self.resolve("PUBREC", i, body, oev, what)
                 return
             if k == "PUBREC" and i in self.unacked:
                 self.inorder = False
@@ -303,6 +346,23 @@ class Mon:
                 self.v("C10", "%s: %s %s" % (what, st, body))
             self.expect_events("C10", oev, [], what)
             return
+        if self.ver == "5" and k == "CONNACK":
+            if r[2] != "0":
+                if not (st == "ERR" and body.startswith("ConnFail:")):
+                    self.v("C10", "%s: %s %s (expected ERR ConnFail)" % (what, st, body))
+                return
+            if not (st == "OK" and body == "-"):
+                self.v("C10", "%s: %s %s" % (what, st, body))
+            if r[4] != "-":
+                self.alias_max = int(r[4])
+            if r[3] != "-":
+                self.max = min(int(r[3]), self.limit)
+                self.nontrivial.add("v5-receive-max")
+            return
+        if self.ver == "5" and k == "DISCONNECT":
+            if not (st == "ERR" and body == "ServerDisconnect:%s" % (r[1] if len(r) > 1 else "0")):
+                self.v("C10", "%s: %s %s (expected ERR ServerDisconnect)" % (what, st, body))
+            return
         if not (st == "ERR" and body == "WrongPacket"):
             self.v("C10", "%s: %s %s (expected ERR WrongPacket)" % (what, st, body))
 
@@ -323,7 +383,7 @@ class Mon:
             self.v("C02", "CLEAN returned %s: accepted and not finally acknowledged but not handed back for retransmission: %s" % (got, missing))
         if extra:
             self.v("C11", "CLEAN returned %s: carries %s which is not owed (owed: %s)" % (got, extra, want))
-        if self.inorder and not missing and not extra:
+        if self.ver == "4" and self.inorder and not missing and not extra:
             gp = [x for x in got if x.startswith("PUB:")]
             if gp != pubs + park:
                 self.v("C11", "CLEAN returned publishes in order %s, original send order is %s" % (gp, pubs + park))
@@ -345,16 +405,18 @@ def monitor_history(lines, answers):
 
 # ----------------------------------------------------------------------------- generators
 
-def exhaustive_alphabet(mx):
+def exhaustive_alphabet(mx, ver="4"):
     al = ["OUT PUB 1 0 1 1", "OUT PUB 2 0 2 2", "OUT SUB 1"]
     for i in range(1, mx + 1):
         al += ["IN PUBACK %d" % i, "IN PUBREC %d" % i, "IN PUBCOMP %d" % i]
     al += ["IN PUBACK %d" % (mx + 1), "CLEAN"]
+    if ver == "5":
+        al += ["IN PUBACK 1 128", "IN PUBREC 1 128"]
     return al
 
 
 def exhaustive_histories(ver, mx, length):
-    al = exhaustive_alphabet(mx)
+    al = exhaustive_alphabet(mx, ver)
     new = "NEW %s %d 0" % (ver, mx)
     for seq in itertools.product(al, repeat=length):
         yield [new] + list(seq)
@@ -365,11 +427,18 @@ INCOMING_ALPHABET = ["IN PUB 0 0 1 1", "IN PUB 1 {i} 1 1", "IN PUB 2 {i} 1 1", "
                      "IN DISCONNECT", "IN CONNECT", "IN SUB {i} 1", "IN UNSUB {i} 1"]
 
 
+INCOMING_ALPHABET_V5 = ["IN PUB 0 0 1 1", "IN PUB 1 {i} 1 1", "IN PUB 2 {i} 1 1", "IN PUBREL {i}", "IN PUBREL {i} 146", "IN PUBACK {i}",
+                        "IN PUBACK {i} 128", "IN PUBREC {i}", "IN PUBREC {i} 135", "IN PUBCOMP {i}", "IN PUBCOMP {i} 146", "IN SUBACK {i}",
+                        "IN UNSUBACK {i}", "IN PINGRESP", "IN PINGREQ", "IN CONNACK 1 0 - -", "IN CONNACK 1 0 1 5", "IN CONNACK 0 135 - -",
+                        "IN DISCONNECT 139", "IN DISCONNECT", "IN CONNECT", "IN SUB {i} 1", "IN UNSUB {i} 1",
+                        "IN PUB 1 {i} 0 1 7", "IN PUB 1 {i} 3 1 7", "IN PUB 2 {i} 0 1 8"]
+
+
 def incoming_histories(ver, mx, length):
     """C10: every incoming packet type x id in {0,1,max,max+1,65535}, manual on/off, after 0-2 publishes."""
     ids = sorted({0, 1, mx, mx + 1, 65535})
     al = []
-    for a in INCOMING_ALPHABET:
+    for a in (INCOMING_ALPHABET_V5 if ver == "5" else INCOMING_ALPHABET):
         al += sorted({a.format(i=i) for i in ids})
     for manual in (0, 1):
         for pre in ([], ["OUT PUB 1 0 1 1"], ["OUT PUB 2 0 2 2", "OUT PUB 1 0 1 1"]):
@@ -382,7 +451,7 @@ class Tracker:
     never as an oracle)."""
 
     def __init__(self, mx):
-        self.max, self.last = mx, 0
+        self.max, self.last, self.limit = mx, 0, mx
         self.pub, self.rel, self.coll = {}, [], None
         self.inc2 = []
 
@@ -393,7 +462,7 @@ class Tracker:
 
     def publish(self, q, t, i=0):
         i = i or self.next()
-        if i > self.max:
+        if i > self.limit:
             return
         if i in self.pub or i in self.rel:
             self.coll = (i, q, t)
@@ -453,7 +522,12 @@ def random_history(rng, ver, style, mx, nops):
                 kind = "PUBCOMP"
                 if style in ("hostile", "mixed") and rng.chance(1, 12):
                     kind = rng.choice(["PUBACK", "PUBREC"])
-            ops.append("IN %s %d" % (kind, i))
+            suffix = ""
+            if ver == "5" and rng.chance(1, 6):
+                suffix = " " + (rng.choice(["128", "135", "16"]) if kind in ("PUBACK", "PUBREC") else "146")
+                if kind == "PUBREC" and suffix not in (" 16",):
+                    tr.ack("PUBACK", i)      # refused: the flow ends
+            ops.append("IN %s %d%s" % (kind, i, suffix))
             tr.ack(kind, i)
             if style in ("hostile", "mixed") and rng.chance(1, 8):   # duplicate ack
                 ops.append("IN %s %d" % (kind, i))
@@ -489,15 +563,35 @@ def random_history(rng, ver, style, mx, nops):
                 if park:
                     ops.append("OUT PUB %d %d %d %d" % (park[1], park[0], park[2] % 50, park[2]))
                     tr.publish(park[1], park[2], park[0])
+        elif ver == "5" and rng.chance(1, 2):
+            c = rng.below(5)
+            if c == 0:
+                rm = rng.choice([1, 2, mx, max(1, mx // 2), 65535])
+                ops.append("IN CONNACK 1 0 %d %s" % (rm, rng.choice(["-", "3", "10"])))
+                tr.max = min(rm, tr.limit)
+                if tr.last >= tr.max:
+                    tr.last = 0
+            elif c == 1:
+                tag += 1
+                ops.append("OUT PUB 1 0 %d %d %d" % (tag % 50, tag, rng.choice([1, 3, 4, 11])))
+                # (the tracker does not know the alias maximum: it may or may not be accepted)
+            elif c == 2:
+                ops.append("IN PUB %d %d %d 1 %d" % (rng.below(3), 1 + rng.below(mx), rng.choice([0, 0, 5]), rng.choice([7, 8])))
+            elif c == 3:
+                ops.append("IN DISCONNECT %s" % rng.choice(["139", "130", "142"]))
+            else:
+                ops.append("IN PUBREL %d 146" % (1 + rng.below(mx)))
         else:
-            ops.append(rng.choice(["OUT DISCONNECT", "IN CONNACK 0 0", "OUT PINGREQ", "IN PUBACK %d" % min(mx + 1, 65535)]))
+            ops.append(rng.choice(["OUT DISCONNECT", "IN CONNACK 0 0" if ver == "4" else "IN CONNACK 0 0 - -", "OUT PINGREQ",
+                                   "IN PUBACK %d" % min(mx + 1, 65535)]))
     return ops
 
 
 def gen_histories(ctx, ver):
     """yields (group, history) — group names the generator (for the histograms)."""
     th = ctx.thorough()
-    for mx, L in ((1, 7 if th else 6), (2, 6 if th else 5), (3, 6 if th else 4)):
+    depths = ((1, 7 if th else 6), (2, 6 if th else 5), (3, 6 if th else 4)) if ver == "4" else ((1, 6 if th else 5), (2, 6 if th else 4), (3, 5 if th else 4))
+    for mx, L in depths:
         for h in exhaustive_histories(ver, mx, L):
             yield "exh-max%d-len%d" % (mx, L), h
     for mx in (1, 2, 3):
